@@ -15,38 +15,51 @@ import random
 import warnings
 from fractions import Fraction
 
-from common import qlit, lst, blit, coq_bad_indices, CoqError
+from common import qlit, zlit, lst, blit, coq_bad_indices, CoqError
 
 PROP = "C20"
 PROPERTY_FILE = "Properties/C20.v"
 GEN_DEPS = ["GenC20Params"]
 CAL_TOL = 1e-8   # |COS price - target| <= CAL_TOL * max(1, spot/100)   (brentq: xtol=2e-12, rtol=8.9e-16 on the parameter)
-RULE = ("histories: 4 classes x N random constructor arguments x 0-12 assignments drawn from {valid value, boundary value, "
-        "violating value, write to a cached field}; 1/3 of the cases use few-bit dyadic values for which every float operation of "
-        "the derived-field formula is exact (compared with tolerance 0); non-trivial = history with >= 2 assignments of which at "
-        "least one is rejected or hits a cached field. calibration monitors: run_default_calibration / calibrate_model_parameter"
-        "[_to_atm_call] for HEM, Merton, VG, CGMY over spot in {50,100,200}, r in {0,.02,.05}, d in {0,.01}, T in {1/12..2}, "
-        "Black-Scholes vol in [0.12,0.35], start parameters perturbed around the library defaults; tolerance 1e-8*max(1,spot/100)")
+RULE = ("histories: 5 classes (HEM, Merton, VG, CGMY, BlackScholes) x N random constructor arguments x 0-12 assignments drawn from {valid value, "
+        "boundary value (0, eta1=1, nu=0: where Python divides by zero), violating value, write to a cached field}; 1/3 of the cases use "
+        "few-bit dyadic values for which every float operation of the derived-field formula is exact (compared with tolerance 0); the FULL "
+        "__dict__ of the objects is compared; every 4th history also prices the two models; non-trivial = history with >= 2 assignments of "
+        "which at least one is rejected or hits a cached field. calibration monitors: run_default_calibration / "
+        "calibrate_model_parameter[_to_atm_call] for HEM, Merton, VG, CGMY over spot in {50,100,200}, r in {0,.02,.05}, d in {0,.01}, "
+        "T in {1/12..2}, Black-Scholes vol in [0.12,0.35], start parameters perturbed around the library defaults; the sign of the "
+        "objective at both ends of the interval is computed independently: sign change => must return (value in the interval, reprices "
+        "within 1e-8*max(1,spot/100), input untouched, same type, new parameter object), equal strict signs => must raise ValueError; "
+        "1/6 of the cases are forced no-root cases, 1/7 of the generic ones use an interval reaching into refused values; the run is "
+        "broken if fewer than 40 (quick) bracketed cases were calibrated")
 MODELLED = ["Parameters objects as records over Q (floats are exact rationals; rounding of / * sqrt in the derived-field formulas is "
             "covered by the stated tolerance of the correspondence, not by the theorems)",
             "np.sqrt, scipy.special.gamma, np.power: opaque functions (theorems hold for every interpretation); correspondence feeds "
             "the implementation's Gamma/pow values as data and uses floor(sqrt(q*4^100))/2^100 for sqrt",
-            "property setters of tools/parameter.py: `set` = store iff predicate holds else ValueError (predicates and the "
-            "class-level declarations are generated by py2coq)",
-            "copy.deepcopy in the calibration: modelled by purity of the functional model; scipy.optimize.brentq and the COS price: "
-            "specified (Root), never proved -- monitored on the implementation",
-            "division by zero (VG sigma=0 or nu=0, HEM eta1=1): Python raises ZeroDivisionError / numpy gives inf in __init__ and "
-            "initialisation alike; Q has x/0=0, so such final states are outside the Coq correspondence (the oracle still checks "
-            "that both construction paths behave alike)"]
+            "property setters of tools/parameter.py: `set` = store iff predicate holds else ValueError (predicates, class-level "
+            "declarations and the list of stored attributes are generated / checked by py2coq)",
+            "Python float division by zero in the derived-field formulas (HEM eta1=1; VG nu=0 or sigma=0) = RaisesZeroDivisionError in "
+            "__init__ and initialisation alike; numpy-typed operands (inf instead of an exception) and underflow of sigma**2 are outside "
+            "the model and skipped by the correspondence (counted)",
+            "objects live in a heap (list of records); copy.deepcopy = append a copy; the calibration is modelled for EVERY list of trial "
+            "values; scipy.optimize.brentq is specified (BrentSpec: returned point inside a sign-changing sub-bracket of width delta; "
+            "raises when the end values have the same strict sign), never proved; the COS price is an abstract function of the record"]
 ASSUMPTIONS = ["floats are modelled as rationals: NaN/inf values are outside the model (NaN is rejected by every predicate, inf is "
                "accepted by the non-strict/strict positivity predicates in the code)",
-               "C20_calibration_spec_partial assumes Root: brentq's returned x lies in [a,b] with |price(x)-market| <= tol; "
-               "monitored on the implementation by the calibration runs of this check"]
+               "C20_calibration_spec_partial clause (4) assumes BrentSpec (brentq keeps its documented bracket promise) and an L-Lipschitz "
+               "price on [a,b]; neither is proved; the repricing |COS price - target| <= 1e-8 is monitored on the implementation",
+               "existence of a sign change over the default intervals is not proved; the monitors compute it per case"]
 THEOREM_NOTES = {
-    "C20_calibration_spec_partial": "partial: existence of a root, convergence of brentq and the COS price are hypotheses (Root), "
-                                    "not conclusions; what is proved is that the rebuilt parameters equal direct construction, reprice "
-                                    "within tol under that hypothesis, and the input record is untouched",
-    "C20_init_eq_reinit": "about the two py2coq translations (from __init__ and from initialisation) of the current source",
+    "C20_calibration_spec_partial": "partial: heap facts (input untouched thanks to the deep copy, refused value => error, returned object = "
+                                    "initialisation(input with f := x)) are proved for every list of trial values; repricing within L*delta is "
+                                    "proved only UNDER BrentSpec + Lipschitz; existence of a root, brentq, the Lipschitz constant and the COS "
+                                    "price are not proved",
+    "C20_calibration_classes": "objective independent of earlier trial values; returned parameters = direct construction (sync with one assignment)",
+    "C20_init_eq_reinit": "about the two py2coq translations (from __init__ and from initialisation) of the current source; reflexivity because "
+                          "the two source expressions are currently identical -- an edit of one of them breaks the proof",
+    "C20_sync_after_any_history": "about the hand-written record model (set/initialisation/construct) tied to the classes by the generated "
+                                  "guards/field lists/derived expressions and by the vm_compute correspondence on full __dict__s; 'behaves "
+                                  "identically' is record equality in the theorem, price equality only as a test",
 }
 
 CLASSES = {}
@@ -59,6 +72,7 @@ def _classes():
     from rpylib.model.levymodel.mixed.merton import MertonParameters, ExponentialOfMertonModel
     from rpylib.model.levymodel.purejump.variancegamma import VGParameters, ExponentialOfVarianceGammaModel
     from rpylib.model.levymodel.purejump.cgmy import CGMYParameters, ExponentialOfCGMYModel
+    from rpylib.model.levymodel.mixed.blackscholes import BlackScholesParameters, BlackScholesModel
     # documented constraints (what the property calls "parameter constraints"): name -> predicate on a float
     pos, spos = (lambda x: x >= 0), (lambda x: x > 0)
     CLASSES.update({
@@ -74,6 +88,8 @@ def _classes():
         "cgmy": dict(cls=CGMYParameters, model=ExponentialOfCGMYModel, prim=["c", "g", "m", "y"],
                      der=["_CGammamY", "_MpowerY", "_GpowerY"], pred=dict(c=spos, g=pos, m=pos, y=lambda x: x < 2.0),
                      ctor=["CC", "CG", "CM", "CY", "CCGammamY", "CMpowerY", "CGpowerY"]),
+        "bs": dict(cls=BlackScholesParameters, model=BlackScholesModel, prim=["sigma"], der=["variance"], pred=dict(sigma=pos),
+                   ctor=["BSigma", "BVariance"]),
     })
     return CLASSES
 
@@ -95,12 +111,15 @@ def _valid(rng, name, f, exact):
             return {"sigma": 2.0 ** -rng.randrange(1, 4), "nu": 2.0 ** (1 - 2 * rng.randrange(1, 4)), "theta": 0.0}[f]
         if name == "cgmy":
             return {"c": 2.0 ** rng.randrange(-3, 4), "g": _dy(rng, 1, 30, 2), "m": _dy(rng, 1, 30, 2), "y": _dy(rng, -1, 1.9, 3)}[f]
+        if name == "bs":
+            return _dy(rng, 0, 1)
         return {"sigma": _dy(rng, 0, 1), "mu_j": _dy(rng, 0, 1), "sigma_j": _dy(rng, 0.125, 1, 4) or 0.25, "intensity": _dy(rng, 0, 8)}[f]
     table = {
         "hem": {"sigma": (0.0, 0.8), "p": (0.01, 1.5), "eta1": (1.05, 60.0), "eta2": (0.05, 60.0), "intensity": (0.0, 10.0)},
         "merton": {"sigma": (0.0, 0.8), "mu_j": (0.0, 0.5), "sigma_j": (0.01, 0.5), "intensity": (0.0, 10.0)},
         "vg": {"sigma": (0.02, 0.8), "nu": (0.01, 2.0), "theta": (-0.5, 0.5)},
         "cgmy": {"c": (0.01, 10.0), "g": (0.5, 40.0), "m": (0.5, 40.0), "y": (-1.5, 1.95)},
+        "bs": {"sigma": (0.0, 0.8)},
     }
     lo, hi = table[name][f]
     return rng.uniform(lo, hi)
@@ -117,8 +136,17 @@ def _invalid(rng, name, f):
     return rng.choice(([0.0] if strict else []) + [-1.0, -2 ** -30, -0.25, -rng.uniform(0.001, 5.0)])
 
 
+class UnmodelledAttribute(Exception):
+    pass
+
+
 def _fields_of(obj, info):
-    return [obj.__dict__[k] for k in info["prim"] + info["der"]]
+    """the FULL __dict__ of the object, in the model's field order; an attribute the model does not know (or a missing one)
+    is a broken correspondence, never silently ignored"""
+    want = info["prim"] + info["der"]
+    if sorted(obj.__dict__) != sorted(want):
+        raise UnmodelledAttribute(f"{type(obj).__name__}.__dict__ has {sorted(obj.__dict__)}, the record model has {sorted(want)}")
+    return [obj.__dict__[k] for k in want]
 
 
 def _same(a, b):
@@ -149,16 +177,28 @@ def _der_tols(name, prim):
         import scipy.special
         c, g, m, y = prim
         return [4 * U * abs(c * scipy.special.gamma(-y)), 0.0, 0.0]
+    if name == "bs":
+        return [2 * U * prim[0] * prim[0]]
     return []
 
 
-def _coq_safe(name, prim):
-    """final primary fields for which the Q model is meaningful (no division by zero, sqrt of a non-negative number, finite Gamma/pow)"""
+def _zero_div(name, prim):
+    """where Python float division by zero occurs in the derived-field formulas (the model: <cls>_defined = false)"""
     if name == "hem":
-        return prim[2] != 1.0
+        return prim[2] - 1 == 0 or prim[3] + 1 == 0
+    if name == "vg":
+        return prim[1] == 0 or prim[0] ** 2 == 0
+    return False
+
+
+def _coq_safe(name, prim):
+    """final primary fields for which the Q model is meaningful: sqrt of a non-negative number, finite Gamma/pow; no float underflow
+    of sigma**2 (division by zero itself IS modelled: RaisesZeroDivisionError)"""
     if name == "vg":
         s, nu, th = prim
-        return s != 0 and nu != 0 and (th * th + 2 * s * s / nu) >= 0
+        if _zero_div(name, prim):
+            return s == 0 or nu == 0        # genuine zeros only (not sigma**2 underflowing to 0.0)
+        return (th * th + 2 * s * s / nu) >= 0
     if name == "cgmy":
         import numpy as np
         import scipy.special
@@ -183,10 +223,24 @@ def _tables(prims):
 
 
 # ----------------------------------------------------------------------------- histories
+TAG = {None: 0, "ValueError": 1, "ZeroDivisionError": 2}
+
+
+def _price_like(info, params, T=0.5):
+    """COS prices of the exponential model built on a Parameters object (or the exception type) -- 'behaves identically'"""
+    import numpy as np
+    from rpylib.numerical.cosmethod import COSPricer
+    try:
+        model = info["model"](spot=100.0, r=0.02, d=0.0, parameters=params)
+        return [float(x) for x in COSPricer(model, n=256).call(np.array([90.0, 100.0, 110.0]), T)]
+    except Exception as e:  # noqa
+        return type(e).__name__
+
+
 def _history_cases(res, rng, n_per_class, viol):
     info_all = _classes()
     coq_cases = {k: [] for k in info_all}
-    none_cases = {k: [] for k in info_all}
+    ctor_cases = {k: [] for k in info_all}
     for name, info in info_all.items():
         cls, prim, der = info["cls"], info["prim"], info["der"]
         allf = prim + der
@@ -203,7 +257,7 @@ def _history_cases(res, rng, n_per_class, viol):
             nops = rng.choice([0, 1, 2, 3, 5, 8, 12])
             ops, flags = [], []
             n_rej = n_der = 0
-            for _ in range(nops):
+            for k_op in range(nops):
                 mode = rng.choice(["valid", "valid", "valid", "invalid", "derived", "boundary"])
                 f = rng.choice(prim)
                 if mode == "derived" and der:
@@ -214,6 +268,8 @@ def _history_cases(res, rng, n_per_class, viol):
                     v = 0.0 if not (name == "cgmy" and f == "y") else rng.choice([2.0 - 2 ** -40, 1.9999, -3.0])
                     if name == "vg" and f in ("nu",):
                         v = rng.choice([0.0, -0.5])
+                    if name == "hem" and f == "eta1":
+                        v = 1.0
                 else:
                     v = _valid(rng, name, f, exact)
                 before = dict(obj.__dict__)
@@ -248,11 +304,15 @@ def _history_cases(res, rng, n_per_class, viol):
                 try:
                     obj.initialisation()
                     after, err_hist = _fields_of(obj, info), None
+                except UnmodelledAttribute:
+                    raise
                 except Exception as e:  # noqa
                     after, err_hist = None, type(e).__name__
                 try:
                     direct = cls(**dict(zip(prim, final_prim)))
                     want, err_direct = _fields_of(direct, info), None
+                except UnmodelledAttribute:
+                    raise
                 except Exception as e:  # noqa
                     want, err_direct = None, type(e).__name__
             res.count((name, tuple(args.values()), tuple(ops)), nontrivial=len(ops) >= 2 and (n_rej > 0 or n_der > 0), kind=f"history {name}")
@@ -262,20 +322,36 @@ def _history_cases(res, rng, n_per_class, viol):
                 viol("initialisation() after a history and direct construction do not raise alike", kind="history", cls=name, args=args,
                      ops=[list(o) for o in ops], history_raises=err_hist, direct_raises=err_direct)
                 continue
-            if err_hist:
+            if err_hist not in (None, "ZeroDivisionError"):
+                viol(f"initialisation() raises {err_hist}", kind="history", cls=name, args=args, ops=[list(o) for o in ops])
                 continue
-            if any(not _same(a, b) for a, b in zip(after, want)):
+            if err_hist is None and any(not _same(a, b) for a, b in zip(after, want)):
                 viol("stale derived parameter: history + initialisation() differs from direct construction with the final values",
                      kind="history", cls=name, args=args, ops=[list(o) for o in ops], fields=allf,
                      after_history=[float(x) for x in after], direct=[float(x) for x in want])
                 continue
+            # 'behaves identically': the models built on the two objects price alike (every 4th history)
+            if err_hist is None and it % 4 == 1:
+                with warnings.catch_warnings():
+                    warnings.simplefilter("ignore")
+                    p1, p2 = _price_like(info, obj), _price_like(info, direct)
+                res.bump("priced", name)
+                same = (p1 == p2) if isinstance(p1, str) or isinstance(p2, str) else all(_same(u, v) for u, v in zip(p1, p2))
+                if not same:
+                    viol("model built after a history + initialisation() prices differently from the directly constructed one",
+                         kind="history", cls=name, args=args, ops=[list(o) for o in ops], after_history=p1, direct=p2)
             # ---- Coq case
-            if not (_finite(before_init) and _finite(after) and _coq_safe(name, final_prim) and _coq_safe(name, list(args.values()))):
-                res.bump("coq_case", "skipped (non-finite / division by zero)")
+            zd = _zero_div(name, final_prim)
+            if zd != (err_hist == "ZeroDivisionError"):
+                # e.g. sigma**2 underflow or numpy-typed operands: outside the model's notion of division by zero
+                res.bump("coq_case", "skipped (float-specific division by zero)")
                 continue
-            res.bump("coq_case", "exact" if exact else "tolerance")
+            if not (_finite(before_init) and (after is None or _finite(after)) and _coq_safe(name, final_prim) and _coq_safe(name, list(args.values()))):
+                res.bump("coq_case", "skipped (non-finite value)")
+                continue
+            res.bump("coq_case", "ZeroDivisionError" if zd else ("exact" if exact else "tolerance"))
             t0 = [0.0] * len(der) if exact else _der_tols(name, list(args.values()))
-            t1 = [0.0] * len(der) if exact else _der_tols(name, final_prim)
+            t1 = [0.0] * len(der) if (exact or zd) else _der_tols(name, final_prim)
             written = {f for (f, v), ok in zip(ops, flags) if ok}
             t0 = [0.0 if d in written else t for d, t in zip(der, t0)]
             z = [0.0] * len(prim)
@@ -284,27 +360,37 @@ def _history_cases(res, rng, n_per_class, viol):
                 lst([f"({info['ctor'][allf.index(f)]}, {qlit(v)})" for f, v in ops]),
                 lst([blit(b) for b in flags]),
                 lst([qlit(float(x)) for x in before_init]), lst([qlit(t) for t in z + t0]),
-                lst([qlit(float(x)) for x in after]), lst([qlit(t) for t in z + t1])]) + ")"
+                zlit(TAG[err_hist]),
+                lst([qlit(float(x)) for x in (after or [])]), lst([qlit(t) for t in (z + t1 if after else [])])]) + ")"
             if name == "cgmy":
                 g1, p2 = _tables([tuple(args.values()), tuple(final_prim)])
                 lit = f"({g1}, {p2}, {lit})"
             coq_cases[name].append(lit)
-        # invalid constructor arguments: ValueError <-> construct = None
+        # constructor error values: ValueError <-> RaisesValueError, ZeroDivisionError <-> RaisesZeroDivisionError
         for it in range(max(6, n_per_class // 8)):
             args = {f: _valid(rng, name, f, it % 2 == 0) for f in prim}
-            cands = [f for f in prim if f in info["pred"]]
-            f = rng.choice(cands)
-            args[f] = _invalid(rng, name, f)
-            try:
-                cls(**args)
-                viol("constructor accepts a value violating the field's constraint", kind="ctor", cls=name, args=args, field=f)
-            except ValueError:
-                pass
-            except Exception as e:  # noqa
-                viol(f"constructor raises {type(e).__name__} (expected ValueError)", kind="ctor", cls=name, args=args, field=f)
-            res.count((name, "ctor-invalid", tuple(args.values())), kind=f"invalid ctor {name}")
-            none_cases[name].append(lst([qlit(args[k]) for k in prim]))
-    return coq_cases, none_cases
+            zero_div = it % 3 == 2 and name in ("hem", "vg")
+            if zero_div:
+                f = "eta1" if name == "hem" else rng.choice(["nu", "sigma"])
+                args[f] = 1.0 if name == "hem" else 0.0
+                expect = "ZeroDivisionError"
+            else:
+                f = rng.choice([f for f in prim if f in info["pred"]])
+                args[f] = _invalid(rng, name, f)
+                expect = "ValueError"
+            with warnings.catch_warnings():
+                warnings.simplefilter("ignore")
+                try:
+                    cls(**args)
+                    got = None
+                except Exception as e:  # noqa
+                    got = type(e).__name__
+            if got != expect:
+                viol(f"constructor: expected {expect}, got {got or 'an object'}", kind="ctor", cls=name, args=args, field=f, expect=expect)
+            res.count((name, "ctor-error", tuple(args.values())), kind=f"constructor error {name}")
+            res.bump("ctor_error", f"{name}:{expect}")
+            ctor_cases[name].append(f"({lst([qlit(args[k]) for k in prim])}, {zlit(TAG[expect])})")
+    return coq_cases, ctor_cases
 
 
 COQ_HEADER = r"""
@@ -319,52 +405,57 @@ Definition closelist (a b tol : list Q) : bool :=
   Nat.eqb (length a) (length b) && Nat.eqb (length a) (length tol) && forallb qclose (zip3 a b tol).
 Definition trace {Rec Field : Type} (set : Rec -> Field -> Q -> Rec * bool) (ops : list (Field * Q)) (r : Rec) : list bool * Rec :=
   fold_left (fun st op => let '(fl, r) := st in let '(r', ok) := set r (fst op) (snd op) in (fl ++ [ok], r')) ops ([], r).
+Definition tag_of {A} (o : outcome A) : Z := match o with Built _ => 0 | RaisesValueError => 1 | RaisesZeroDivisionError => 2 end%Z.
+(* tag = 0: initialisation() succeeded on the implementation with fields `after`; tag = 2: it raised ZeroDivisionError *)
 Definition hist_check {Rec Field : Type} (set : Rec -> Field -> Q -> Rec * bool) (run : list (Field * Q) -> Rec -> Rec)
-   (init : Rec -> Rec) (fields : Rec -> list Q) (rebuild : Rec -> option Rec) (r0 : option Rec)
-   (c : list (Field * Q) * list bool * list Q * list Q * list Q * list Q) : bool :=
+   (init : Rec -> outcome Rec) (fields : Rec -> list Q) (rebuild : Rec -> outcome Rec) (r0 : outcome Rec)
+   (c : list (Field * Q) * list bool * list Q * list Q * Z * list Q * list Q) : bool :=
   match c, r0 with
-  | (ops, flags, before, tb, after, ta), Some r0 =>
+  | (ops, flags, before, tb, tag, after, ta), Built r0 =>
       let '(fl, r) := trace set ops r0 in
-      list_eqb Bool.eqb fl flags && closelist (fields r) before tb && closelist (fields (init r)) after ta
-      && closelist (fields (run ops r0)) before tb
-      && match rebuild r with Some r' => closelist (fields r') after ta | None => false end
-  | _, None => false
+      list_eqb Bool.eqb fl flags && closelist (fields r) before tb && closelist (fields (run ops r0)) before tb
+      && match init r, rebuild r with
+         | Built r1, Built r2 => Z.eqb tag 0 && closelist (fields r1) after ta && closelist (fields r2) after ta
+         | RaisesZeroDivisionError, RaisesZeroDivisionError => Z.eqb tag 2
+         | _, _ => false
+         end
+  | _, _ => false
   end.
-Definition hem_fields r := [h_sigma r; h_p r; h_eta1 r; h_eta2 r; h_intensity r; h_xi r].
-Definition merton_fields r := [m_sigma r; m_mu_j r; m_sigma_j r; m_intensity r].
-Definition vg_fields r := [v_sigma r; v_nu r; v_theta r; v_c r; v_lambda_p r; v_lambda_m r].
-Definition cgmy_fields r := [c_c r; c_g r; c_m r; c_y r; c_CGammamY r; c_MpowerY r; c_GpowerY r].
-Definition hem_ctor (a : list Q) := match a with [s; p; e1; e2; i] => hem_construct s p e1 e2 i | _ => None end.
-Definition merton_ctor (a : list Q) := match a with [s; mu; sj; i] => merton_construct s mu sj i | _ => None end.
-Definition vg_ctor (a : list Q) := match a with [s; nu; th] => vg_construct qsqrt_hi s nu th | _ => None end.
-Definition cgmy_ctor fg fp (a : list Q) := match a with [c; g; m; y] => cgmy_construct fg fp c g m y | _ => None end.
-Definition hem_case c := match c with (a, ops, fl, b, tb, af, ta) =>
-  hist_check hem_set hem_run hem_initialisation hem_fields hem_rebuild (hem_ctor a) (ops, fl, b, tb, af, ta) end.
-Definition merton_case c := match c with (a, ops, fl, b, tb, af, ta) =>
-  hist_check merton_set merton_run merton_initialisation merton_fields merton_rebuild (merton_ctor a) (ops, fl, b, tb, af, ta) end.
-Definition vg_case c := match c with (a, ops, fl, b, tb, af, ta) =>
-  hist_check vg_set vg_run (vg_initialisation qsqrt_hi) vg_fields (vg_rebuild qsqrt_hi) (vg_ctor a) (ops, fl, b, tb, af, ta) end.
-Definition cgmy_case c := match c with (g1, p2, (a, ops, fl, b, tb, af, ta)) =>
+Definition hem_ctor (a : list Q) := match a with [s; p; e1; e2; i] => hem_construct s p e1 e2 i | _ => RaisesValueError end.
+Definition merton_ctor (a : list Q) := match a with [s; mu; sj; i] => merton_construct s mu sj i | _ => RaisesValueError end.
+Definition vg_ctor (a : list Q) := match a with [s; nu; th] => vg_construct qsqrt_hi s nu th | _ => RaisesValueError end.
+Definition cgmy_ctor fg fp (a : list Q) := match a with [c; g; m; y] => cgmy_construct fg fp c g m y | _ => RaisesValueError end.
+Definition bs_ctor (a : list Q) := match a with [s] => bs_construct s | _ => RaisesValueError end.
+Definition hem_case c := match c with (a, ops, fl, b, tb, tag, af, ta) =>
+  hist_check hem_set hem_run hem_initialisation_checked hem_fields hem_rebuild (hem_ctor a) (ops, fl, b, tb, tag, af, ta) end.
+Definition merton_case c := match c with (a, ops, fl, b, tb, tag, af, ta) =>
+  hist_check merton_set merton_run merton_initialisation_checked merton_fields merton_rebuild (merton_ctor a) (ops, fl, b, tb, tag, af, ta) end.
+Definition vg_case c := match c with (a, ops, fl, b, tb, tag, af, ta) =>
+  hist_check vg_set vg_run (vg_initialisation_checked qsqrt_hi) vg_fields (vg_rebuild qsqrt_hi) (vg_ctor a) (ops, fl, b, tb, tag, af, ta) end.
+Definition cgmy_case c := match c with (g1, p2, (a, ops, fl, b, tb, tag, af, ta)) =>
   let fg := qlookup1 g1 in let fp := qlookup2 p2 in
-  hist_check cgmy_set cgmy_run (cgmy_initialisation fg fp) cgmy_fields (cgmy_rebuild fg fp) (cgmy_ctor fg fp a) (ops, fl, b, tb, af, ta) end.
-Definition is_none {A} (o : option A) := match o with None => true | Some _ => false end.
+  hist_check cgmy_set cgmy_run (cgmy_initialisation_checked fg fp) cgmy_fields (cgmy_rebuild fg fp) (cgmy_ctor fg fp a) (ops, fl, b, tb, tag, af, ta) end.
+Definition bs_case c := match c with (a, ops, fl, b, tb, tag, af, ta) =>
+  hist_check bs_set bs_run bs_initialisation_checked bs_fields bs_rebuild (bs_ctor a) (ops, fl, b, tb, tag, af, ta) end.
 """
 
-CASE_TY = "list Q * list ({F} * Q) * list bool * list Q * list Q * list Q * list Q"
+CASE_TY = "list Q * list ({F} * Q) * list bool * list Q * list Q * Z * list Q * list Q"
 
 
-def _coq_side(res, coq_cases, none_cases):
+def _coq_side(res, coq_cases, ctor_cases):
     groups = []
-    for name, fld in (("hem", "HemField"), ("merton", "MertonField"), ("vg", "VgField"), ("cgmy", "CgmyField")):
+    for name, fld in (("hem", "HemField"), ("merton", "MertonField"), ("vg", "VgField"), ("cgmy", "CgmyField"), ("bs", "BsField")):
         ty = CASE_TY.format(F=fld)
         if name == "cgmy":
             ty = f"list (Q * Q) * list (Q * Q * Q) * ({ty})"
-        if coq_cases[name]:
-            groups.append((f"hist_{name}", ty, f"{name}_case", coq_cases[name]))
-    ctor = {"hem": "hem_ctor", "merton": "merton_ctor", "vg": "vg_ctor", "cgmy": "cgmy_ctor (fun _ => 1) (fun _ _ => 1)"}
-    for name, cases in none_cases.items():
-        if cases:
-            groups.append((f"ctor_{name}", "list Q", f"fun a => is_none ({ctor[name]} a)", cases))
+        groups.append((f"hist_{name}", ty, f"{name}_case", coq_cases[name]))
+    ctor = {"hem": "hem_ctor", "merton": "merton_ctor", "vg": "vg_ctor", "cgmy": "cgmy_ctor (fun _ => 1) (fun _ _ => 1)", "bs": "bs_ctor"}
+    for name, cases in ctor_cases.items():
+        groups.append((f"ctor_{name}", "list Q * Z", f"fun c => Z.eqb (tag_of ({ctor[name]} (fst c))) (snd c)", cases))
+    for g, ty, chk, cases in groups:
+        if not cases:
+            res.broke(f"correspondence {g}", "no case generated (empty group)")
+    groups = [g for g in groups if g[3]]
     res.case_lemmas += len(groups)
     bad = coq_bad_indices(PROP, "cases", COQ_HEADER, groups, timeout=900)
     for g, ty, chk, cases in groups:
@@ -376,6 +467,9 @@ def _coq_side(res, coq_cases, none_cases):
 
 # ----------------------------------------------------------------------------- calibration monitors (implementation only)
 def _calibration_monitors(res, rng, n_default, n_generic, viol):
+    """implementation-only monitors.  The sign of the objective at both ends of the interval is computed INDEPENDENTLY (models
+    constructed directly with the end values, priced by COS): a strict sign change obliges the calibration to return, equal strict
+    signs oblige it to raise ValueError.  Returns the number of successfully calibrated cases."""
     import numpy as np
     from rpylib.model import utils as U_
     from rpylib.model.levymodel.levymodel import ModelType
@@ -397,9 +491,60 @@ def _calibration_monitors(res, rng, n_default, n_generic, viol):
     def snapshot(model):
         return (copy.deepcopy(model.levy_model.parameters.__dict__), model.spot, model.r, model.d)
 
-    def atm_bs(model, T, vol):
-        bs = U_.create_exponential_of_levy_model(ModelType.BLACKSCHOLES)(spot=model.spot, r=model.r, d=model.d, sigma=vol)
-        return float(CFBlackScholes(bs).call(strike=model.spot, maturity=T))
+    def call_product(strike, T, ptype=PayoffType.CALL):
+        return Product(payoff_underlying=Spot(), payoff=Vanilla(strike=strike, payoff_type=ptype), maturity=T)
+
+    def bs_price(model, strike, T, vol, ptype=PayoffType.CALL):
+        bs = CFBlackScholes(U_.create_exponential_of_levy_model(ModelType.BLACKSCHOLES)(spot=model.spot, r=model.r, d=model.d, sigma=vol))
+        return float(bs.call(strike, T) if ptype == PayoffType.CALL else bs.put(strike, T))
+
+    def objective(mt, kw, par, val, product, market):
+        """price(model constructed DIRECTLY with par := val) - market; None if the construction or the pricing fails"""
+        try:
+            m = U_.helper_model(mt)(**dict(kw, **{par: val}))
+            v = float(np.squeeze(COSPricer(m).price(product=product))) - market
+            return v if math.isfinite(v) else None
+        except Exception:  # noqa
+            return None
+
+    def classify(fa, fb):
+        if fa is None or fb is None:
+            return "undetermined"
+        if fa * fb < 0:
+            return "sign change"
+        if fa * fb > 0:
+            return "no sign change"
+        return "zero at an end"
+
+    stats = {"calibrated": 0, "sign change": 0}
+
+    def judge(outcome, cls_, what, rep):
+        """outcome: ('value', x) | ('ValueError', msg) | ('other', exc)"""
+        res.bump("calibration_outcome", f"{rep['model']}: {cls_} -> {outcome[0]}")
+        if cls_ == "sign change":
+            stats["sign change"] += 1
+        if outcome[0] == "other":
+            viol(f"{what} raises {outcome[1]} instead of returning a value or ValueError('...cannot be calibrated...')", **rep)
+            return False
+        if outcome[0] == "ValueError":
+            if "cannot be calibrated" not in outcome[1]:
+                viol(f"{what} raises ValueError({outcome[1]})", **rep)
+            elif cls_ == "sign change":
+                viol(f"{what} raises although the objective changes sign over the interval (a root exists)", **rep)
+            return False
+        if cls_ == "no sign change":
+            viol(f"{what} returns a value although the objective has the same strict sign at both ends (brentq must raise)", **rep)
+            return False
+        stats["calibrated"] += 1
+        return True
+
+    def attempt(fun):
+        try:
+            return ("value", fun())
+        except ValueError as e:
+            return ("ValueError", str(e))
+        except Exception as e:  # noqa
+            return ("other", f"{type(e).__name__}: {e}")
 
     mts = [ModelType.HEM, ModelType.MERTON, ModelType.VG, ModelType.CGMY]
     with warnings.catch_warnings():
@@ -409,27 +554,27 @@ def _calibration_monitors(res, rng, n_default, n_generic, viol):
             model, kw = make(mt)
             T = rng.choice([1 / 12, 0.25, 0.5, 1.0, 2.0])
             vol = round(rng.uniform(0.12, 0.35), 3)
-            rep = dict(kind="default_calibration", model=mt.name, params=kw, maturity=T, bs_sigma=vol)
+            cfg = U_.default_calibration[mt]
+            a, b = cfg.parameter_interval
+            target = bs_price(model, model.spot, T, vol)
+            must_raise = it % 6 == 5            # forced no-sign-change case: no admissible value reaches this target
+            if must_raise:
+                vol = 3.0 if mt != ModelType.MERTON else 0.001
+                target = bs_price(model, model.spot, T, vol)
+            product = call_product(model.spot, T)
+            fa, fb = objective(mt, kw, cfg.parameter, a, product, target), objective(mt, kw, cfg.parameter, b, product, target)
+            cls_ = classify(fa, fb)
+            rep = dict(kind="default_calibration", model=mt.name, params=kw, maturity=T, bs_sigma=vol, objective_at_ends=[fa, fb], ends=cls_)
             snap = snapshot(model)
             price_before = float(np.squeeze(COSPricer(model).call(np.array([model.spot]), T)))
-            cfg = U_.default_calibration[mt]
             res.count(("default", mt.name, tuple(kw.values()), T, vol), kind=f"run_default_calibration {mt.name}")
-            try:
-                cm = U_.run_default_calibration(model, T, vol)
-            except ValueError as e:
-                ok_msg = "cannot be calibrated" in str(e)
-                res.bump("default_calibration", f"{mt.name}: raises ValueError (no root in the interval)" if ok_msg else f"{mt.name}: ValueError")
-                if not ok_msg:
-                    viol(f"run_default_calibration raises ValueError({e})", finding="F-C20-1", **rep)
+            out = attempt(lambda: U_.run_default_calibration(model, T, vol))
+            if snapshot(model) != snap or float(np.squeeze(COSPricer(model).call(np.array([model.spot]), T))) != price_before:
+                viol("run_default_calibration modified its input model", **rep)
+            if not judge(out, cls_, "run_default_calibration", rep):
                 continue
-            except Exception as e:  # noqa
-                viol(f"run_default_calibration raises {type(e).__name__} instead of returning a calibrated model",
-                     finding="F-C20-1", exception=f"{type(e).__name__}: {e}", **rep)
-                continue
-            res.bump("default_calibration", f"{mt.name}: calibrated")
+            cm = out[1]
             x = getattr(cm.levy_model.parameters, cfg.parameter)
-            a, b = cfg.parameter_interval
-            target = atm_bs(model, T, vol)
             got = float(np.squeeze(COSPricer(cm).call(np.array([cm.spot]), T)))
             tol = CAL_TOL * max(1.0, model.spot / 100)
             rep.update(calibrated=float(x), interval=[a, b], target=target, cos_price=got, tol=tol)
@@ -439,9 +584,8 @@ def _calibration_monitors(res, rng, n_default, n_generic, viol):
                 viol("calibrated model does not reprice the ATM call at the Black-Scholes price", **rep)
             if type(cm) is not type(model) or type(cm.levy_model.parameters) is not type(model.levy_model.parameters):
                 viol("calibrated model is not of the input model's type", **rep)
-            if snapshot(model) != snap or cm.levy_model.parameters is model.levy_model.parameters \
-                    or float(np.squeeze(COSPricer(model).call(np.array([model.spot]), T))) != price_before:
-                viol("run_default_calibration modified its input model", **rep)
+            if cm.levy_model.parameters is model.levy_model.parameters:
+                viol("run_default_calibration returns the input's parameter object (aliasing)", **rep)
             if (cm.spot, cm.r, cm.d) != (model.spot, model.r, model.d):
                 viol("calibrated model has another spot/r/d", **rep)
             # the returned model behaves like one constructed directly with the final values
@@ -450,7 +594,7 @@ def _calibration_monitors(res, rng, n_default, n_generic, viol):
             direct = type(cm)(spot=cm.spot, r=cm.r, d=cm.d, parameters=info["cls"](**{k: p.__dict__[k] for k in info["prim"]}))
             ks = np.array([0.8, 1.0, 1.25]) * cm.spot
             if any(not _same(u, v) for u, v in zip(COSPricer(direct).call(ks, T), COSPricer(cm).call(ks, T))) or \
-                    any(not _same(direct.levy_model.parameters.__dict__[k], p.__dict__[k]) for k in info["prim"] + info["der"]):
+                    any(not _same(u, v) for u, v in zip(_fields_of(direct.levy_model.parameters, info), _fields_of(p, info))):
                 viol("calibrated model differs from the model constructed directly with the calibrated values", **rep)
 
         # calibrate_model_parameter on other parameters / products
@@ -466,29 +610,32 @@ def _calibration_monitors(res, rng, n_default, n_generic, viol):
             vol = round(rng.uniform(0.12, 0.35), 3)
             strike = model.spot * rng.choice([0.9, 1.0, 1.1])
             ptype = rng.choice([PayoffType.CALL, PayoffType.PUT])
-            product = Product(payoff_underlying=Spot(), payoff=Vanilla(strike=strike, payoff_type=ptype), maturity=T)
-            bs = CFBlackScholes(U_.create_exponential_of_levy_model(ModelType.BLACKSCHOLES)(spot=model.spot, r=model.r, d=model.d, sigma=vol))
-            market = float(bs.call(strike, T) if ptype == PayoffType.CALL else bs.put(strike, T))
+            product = call_product(strike, T, ptype)
+            market = bs_price(model, strike, T, vol, ptype)
+            mode = it % 7
+            if mode == 5:       # forced no-sign-change: a market price no parameter value attains
+                market = 3.0 * model.spot
+            if mode == 6:       # a trial interval reaching into values the setter refuses: must raise (ValueError), never return
+                a = -0.5
+            atm = ptype == PayoffType.CALL and strike == model.spot and mode < 5 and it % 2 == 0
+            if atm:
+                market = bs_price(model, model.spot, T, vol)
+            fa = objective(mt, kw, par, a, product, market) if a >= 0 else None
+            fb = objective(mt, kw, par, b, product, market)
+            cls_ = classify(fa, fb) if mode != 6 else "no sign change"
             rep = dict(kind="calibrate_model_parameter", model=mt.name, params=kw, parameter=par, interval=[a, b], maturity=T,
-                       strike=strike, payoff=ptype.name, bs_sigma=vol, market_price=market)
+                       strike=strike, payoff=ptype.name, bs_sigma=vol, market_price=market, objective_at_ends=[fa, fb], ends=cls_, atm_entry=atm)
             snap = snapshot(model)
-            res.count(("generic", mt.name, tuple(kw.values()), par, T, vol, strike, ptype.name), kind=f"calibrate_model_parameter {mt.name}.{par}")
-            try:
-                if ptype == PayoffType.CALL and strike == model.spot and it % 2 == 0:
-                    x = U_.calibrate_model_parameter_to_atm_call(model, par, (a, b), T, vol)
-                else:
-                    x = U_.calibrate_model_parameter(model, par, (a, b), product, market)
-            except ValueError as e:
-                ok_msg = "cannot be calibrated" in str(e)
-                res.bump("calibrate_model_parameter", f"{mt.name}.{par}: raises ValueError (no root in the interval)" if ok_msg else "ValueError")
-                if not ok_msg:
-                    viol(f"calibrate_model_parameter raises ValueError({e})", finding="F-C20-1", **rep)
+            res.count(("generic", mt.name, tuple(kw.values()), par, T, vol, strike, ptype.name, mode), kind=f"calibrate_model_parameter {mt.name}.{par}")
+            if atm:
+                out = attempt(lambda: U_.calibrate_model_parameter_to_atm_call(model, par, (a, b), T, vol))
+            else:
+                out = attempt(lambda: U_.calibrate_model_parameter(model, par, (a, b), product, market))
+            if snapshot(model) != snap:
+                viol("calibrate_model_parameter modified its input model", **rep)
+            if not judge(out, cls_, "calibrate_model_parameter", rep):
                 continue
-            except Exception as e:  # noqa
-                viol(f"calibrate_model_parameter raises {type(e).__name__} instead of returning the calibrated value",
-                     finding="F-C20-1", exception=f"{type(e).__name__}: {e}", **rep)
-                continue
-            res.bump("calibrate_model_parameter", f"{mt.name}.{par}: calibrated")
+            x = out[1]
             params = copy.deepcopy(model.levy_model.parameters)
             setattr(params, par, x)
             params.initialisation()
@@ -499,8 +646,7 @@ def _calibration_monitors(res, rng, n_default, n_generic, viol):
                 viol("calibrated value outside the admissible interval", **rep)
             if not abs(got - market) <= tol:
                 viol("model with the calibrated value does not reprice the target product", **rep)
-            if snapshot(model) != snap:
-                viol("calibrate_model_parameter modified its input model", **rep)
+    return stats
 
 
 def _run(res, scale):
@@ -510,20 +656,31 @@ def _run(res, scale):
         res.violation(what, dict(kw))
 
     quick = res.tier == "quick"
-    coq_cases, none_cases = _history_cases(res, rng, int((150 if quick else 1500) * scale), viol)
-    _calibration_monitors(res, rng, int((48 if quick else 600) * scale), int((32 if quick else 400) * scale), viol)
-    return coq_cases, none_cases
+    try:
+        coq_cases, ctor_cases = _history_cases(res, rng, int((120 if quick else 1200) * scale), viol)
+    except UnmodelledAttribute as e:
+        res.broke("correspondence fields", str(e))
+        coq_cases, ctor_cases = None, None
+    stats = _calibration_monitors(res, rng, int((48 if quick else 600) * scale), int((35 if quick else 420) * scale), viol)
+    # the monitors must not be vacuous: most bracketed cases exist and every one of them must have been calibrated (judge() flags
+    # the others individually); an implementation whose root finder always raises cannot pass
+    need = int((40 if quick else 500) * scale)
+    if stats["sign change"] < need or stats["calibrated"] < need:
+        res.broke("calibration monitors", f"only {stats['calibrated']} calibrated cases out of {stats['sign change']} with an independently "
+                                          f"verified sign change (need >= {need}): the monitors would be vacuous")
+    return coq_cases, ctor_cases
 
 
 def correspond(res):
-    coq_cases, none_cases = _run(res, 1)
-    _coq_side(res, coq_cases, none_cases)
+    coq_cases, ctor_cases = _run(res, 1)
+    if coq_cases is not None:
+        _coq_side(res, coq_cases, ctor_cases)
 
 
 def search(res):
     """a proof obligation or the correspondence broke and the first pass found no failing input: more histories, longer"""
     res.seed += 1
-    _run(res, 4)
+    _run(res, 3)
 
 
 def replay(path):
@@ -540,7 +697,7 @@ def replay(path):
                 obj = info["cls"](**data["args"])
             except Exception as e:  # noqa
                 print("constructor raises", type(e).__name__, e)
-                return 1 if k != "ctor" or not isinstance(e, ValueError) else 0
+                return 0 if k == "ctor" and type(e).__name__ == data.get("expect", "ValueError") else 1
             if k == "ctor":
                 print("constructor accepted", data["args"])
                 return 1
@@ -586,7 +743,9 @@ def replay(path):
                     cm = U_.run_default_calibration(model, T, data["bs_sigma"])
                     x = getattr(cm.levy_model.parameters, U_.default_calibration[mt].parameter)
                     got = float(np.squeeze(COSPricer(cm).call(np.array([cm.spot]), T)))
-                    print("calibrated value", x, "COS price", got, "target", data.get("target"))
+                    print("calibrated value", x, "COS price", got, "target", data.get("target"), "| ends:", data.get("ends"))
+                    if data.get("ends") == "no sign change":
+                        return 1
                     if data.get("target") is not None and abs(got - data["target"]) > data.get("tol", CAL_TOL):
                         return 1
                     a, b = U_.default_calibration[mt].parameter_interval
@@ -597,11 +756,13 @@ def replay(path):
                 setattr(params, data["parameter"], x)
                 params.initialisation()
                 got = float(np.squeeze(COSPricer(type(model)(spot=model.spot, r=model.r, d=model.d, parameters=params)).price(product)))
-                print("calibrated value", x, "COS price", got, "market", data["market_price"])
+                print("calibrated value", x, "COS price", got, "market", data["market_price"], "| ends:", data.get("ends"))
+                if data.get("ends") == "no sign change":
+                    return 1
                 return 0 if abs(got - data["market_price"]) <= data.get("tol", CAL_TOL) and data["interval"][0] <= x <= data["interval"][1] else 1
             except ValueError as e:
-                print("raises ValueError:", e)
-                return 0 if "cannot be calibrated" in str(e) else 1
+                print("raises ValueError:", e, "| objective at the ends of the interval (computed independently):", data.get("objective_at_ends"), data.get("ends"))
+                return 0 if "cannot be calibrated" in str(e) and data.get("ends") != "sign change" else 1
             except Exception as e:  # noqa
                 print(f"raises {type(e).__name__}: {e}")
                 return 1
@@ -610,17 +771,20 @@ def replay(path):
 
 
 LEVEL_TEXT = ("Proof (partial for the calibration clause): Coq theorems, closed under the global context, state for HEMParameters, "
-              "MertonParameters, VGParameters and CGMYParameters that (1) the derived fields computed by initialisation() are the same "
-              "functions of the primary fields as those computed by __init__ (both translated from /repo by py2coq on every run), (2) for "
-              "EVERY list of assignments (accepted, rejected, or overwriting a cached field) on a constructed object, initialisation() "
-              "yields exactly the object the constructor builds from the final values, (3) an assignment violating the field's predicate "
-              "is rejected and leaves the object unchanged, with the predicate of every field of every class spelled out (predicates and "
-              "class-level declarations generated from tools/parameter.py and the class bodies), (4) partial: IF brentq returns x in [a,b] "
-              "with residual <= tol THEN the returned parameters equal direct construction, reprice within tol, and the input is "
-              "untouched. Existence of a root, brentq and the COS price are not proved: calibrate_model_parameter*, "
-              "run_default_calibration are monitored on the implementation over a documented box. Model and implementation are compared "
-              "by vm_compute on ~600 random assignment histories per run.")
+              "MertonParameters, VGParameters, CGMYParameters and BlackScholesParameters that (1) the derived fields computed by "
+              "initialisation() are the same functions of the primary fields as those computed by __init__ (both translated from /repo by "
+              "py2coq on every run; a class storing any other attribute is refused), (2) for EVERY list of assignments (accepted, rejected, "
+              "or overwriting a cached field) on a constructed object, initialisation() has exactly the outcome of constructing from the "
+              "final values -- the same object, or ZeroDivisionError on both paths (HEM eta1=1, VG nu=0 or sigma=0), (3) an assignment "
+              "violating the field's predicate is rejected and leaves the object unchanged, with the predicate of every field of every "
+              "class spelled out, (4) partial: in a heap model of calibrate_model_parameter / run_default_calibration, for every list of trial "
+              "values, the input object is untouched (the variant without deepcopy is shown to modify it), a refused value raises, the "
+              "returned parameters are a new object equal to direct construction; IF brentq keeps its bracket promise and the price is "
+              "L-Lipschitz THEN the value is in [a,b] and the model reprices within L*delta. Existence of a root, brentq, the Lipschitz "
+              "constant and the COS price are NOT proved: the calibration functions are monitored on the implementation over a documented box "
+              "with independently computed end-point signs (must return / must raise). Model and implementation are compared by vm_compute on "
+              "~600 random assignment histories per run (full __dict__).")
 LEVEL_NOTE = ("Trusted: Coq kernel + vm_compute; py2coq (fail-closed; its output is also run against the implementation); floats modelled "
               "as rationals (rounding covered by the correspondence tolerance: 0 on dyadic cases, <= 8 ulp of the formula's terms otherwise); "
-              "np.sqrt/Gamma/np.power opaque; deepcopy, brentq, COS price specified not verified.")
-TECHNIQUE = "Coq proof (induction over assignment histories on py2coq-generated guards and derived-field expressions) + vm_compute correspondence + calibration monitors"
+              "np.sqrt/Gamma/np.power opaque; heap/deepcopy model, brentq specification and the COS price are specified, not verified.")
+TECHNIQUE = "Coq proof (induction over assignment histories and trial lists on py2coq-generated guards and derived-field expressions) + vm_compute correspondence + calibration monitors"
